@@ -1,1 +1,325 @@
+//! Reference decoder: an independent executable statement of the parser's policy (property C02) and of the
+//! RFC 1035 decoding the accessors must agree with (C03, C04), plus a structured packet generator.
 #![allow(unused)]
+use crate::util::*;
+
+pub fn bad_char(c: u8) -> bool { c < 32 || c == 127 || c == b'.' || c == b'\\' }
+
+/// compressed-name rule of C02.  Returns (offset right after the in-place encoding, expanded wire name).
+pub fn name_walk(p: &[u8], start: usize) -> Option<(usize, Vec<u8>)> {
+    if start >= p.len() { return None; }
+    let (mut off, mut barrier, mut lowest) = (start, p.len(), start);
+    let mut refs = 16;
+    let mut out: Vec<u8> = vec![];
+    let mut fend: Option<usize> = None;
+    loop {
+        if off >= barrier || off >= p.len() { return None; }
+        let b = p[off];
+        if b & 0xc0 == 0xc0 {
+            if refs == 0 || off + 2 > p.len() { return None; }
+            let t = (((b & 0x3f) as usize) << 8) | p[off + 1] as usize;
+            if t >= lowest { return None; }          // strictly backward
+            if p[t] == 0 { return None; }            // never to a root label
+            if fend.is_none() { fend = Some(off + 2); }
+            refs -= 1;
+            barrier = lowest; lowest = t; off = t;
+            continue;
+        }
+        if b > 63 { return None; }
+        let l = b as usize;
+        if off + l + 1 > p.len() { return None; }
+        if out.len() + l + 1 > 255 { return None; }
+        if p[off + 1..off + 1 + l].iter().any(|&c| bad_char(c)) { return None; }
+        out.extend_from_slice(&p[off..off + 1 + l]);
+        off += l + 1;
+        if l == 0 { return Some((fend.unwrap_or(off), out)); }
+    }
+}
+
+/// pointer-free rule, any label bytes
+pub fn plain_walk(p: &[u8], start: usize) -> Option<usize> {
+    let mut off = start;
+    let mut n = 0usize;
+    loop {
+        if off >= p.len() { return None; }
+        let b = p[off];
+        if b & 0xc0 == 0xc0 || b > 63 { return None; }
+        let l = b as usize;
+        if off + l + 1 > p.len() || n + l + 1 > 255 { return None; }
+        n += l + 1; off += l + 1;
+        if l == 0 { return Some(off); }
+    }
+}
+
+pub fn opts(p: &[u8], mut a: usize, b: usize) -> Option<Vec<(usize, u16, usize)>> {
+    let mut v = vec![];
+    while a < b {
+        if a + 4 > b { return None; }
+        let l = be16(p, a + 2) as usize;
+        if a + 4 + l > b { return None; }
+        v.push((a, be16(p, a), l));
+        a += 4 + l;
+    }
+    Some(v)
+}
+
+#[derive(Clone, Debug, PartialEq)]
+pub struct Rec {
+    pub section: u8,          // 1 answer, 2 authority, 3 additional
+    pub off: usize,
+    pub name_end: usize,
+    pub name: Vec<u8>,        // expanded wire name
+    pub rtype: u16,
+    pub class: u16,
+    pub ttl: u32,
+    pub rdlen: usize,
+    pub end: usize,
+    pub rdata_names: Vec<Vec<u8>>,  // expanded names inside understood rdata
+}
+
+#[derive(Clone, Debug)]
+pub struct Msg {
+    pub qname: Vec<u8>,
+    pub qname_end: usize,
+    pub qtype: u16,
+    pub qclass: u16,
+    pub recs: Vec<Rec>,
+    pub starts: [Option<usize>; 4],   // question, answer, authority, additional
+    pub opt: Option<usize>,           // offset right after the OPT owner name
+    pub options: Vec<(usize, u16, usize)>,
+}
+
+pub fn parse_rr(p: &[u8], off: usize, section: u8, seen_opt: bool) -> Option<Rec> {
+    let (ne, name) = name_walk(p, off)?;
+    if ne + 10 > p.len() { return None; }
+    let t = be16(p, ne);
+    let l = be16(p, ne + 8) as usize;
+    let d = ne + 10;
+    let mut rn = vec![];
+    match t {
+        41 => {
+            if section != 3 || ne - off != 1 || seen_opt { return None; }
+            if d + l > p.len() { return None; }
+            opts(p, d, d + l)?;
+        }
+        2 | 5 | 12 => { let (e, n) = name_walk(p, d)?; if e != d + l { return None; } rn.push(n); }
+        15 => { if l <= 2 { return None; } let (e, n) = name_walk(p, d + 2)?; if e != d + l { return None; } rn.push(n); }
+        6 => {
+            let (e1, n1) = name_walk(p, d)?; let (e2, n2) = name_walk(p, e1)?;
+            if e2 + 20 != d + l || d + l > p.len() { return None; }
+            rn.push(n1); rn.push(n2);
+        }
+        39 => { if plain_walk(p, d)? != d + l { return None; } }
+        1 => { if l != 4 || d + l > p.len() { return None; } }
+        28 => { if l != 16 || d + l > p.len() { return None; } }
+        _ => { if d + l > p.len() { return None; } }
+    }
+    Some(Rec { section, off, name_end: ne, name, rtype: t, class: be16(p, ne + 2), ttl: be32(p, ne + 4), rdlen: l, end: d + l, rdata_names: rn })
+}
+
+/// C02: Some(..) iff the packet is well-formed under the parser's policy
+pub fn parse_ref(p: &[u8]) -> Option<Msg> {
+    if p.len() < 12 { return None; }
+    if be16(p, 4) != 1 { return None; }
+    let (qne, qname) = name_walk(p, 12)?;
+    if qne + 4 > p.len() { return None; }
+    if be16(p, qne + 2) != 1 { return None; }
+    let qr = p[2] & 0x80 != 0;
+    let counts = [be16(p, 6) as usize, be16(p, 8) as usize, be16(p, 10) as usize];
+    if !qr && (counts[0] > 0 || counts[1] > 0) { return None; }
+    let mut off = qne + 4;
+    let mut recs = vec![];
+    let mut starts = [Some(12), None, None, None];
+    let mut opt = None;
+    let mut options = vec![];
+    for s in 0..3 {
+        if counts[s] > 0 { starts[s + 1] = Some(off); }
+        for _ in 0..counts[s] {
+            let r = parse_rr(p, off, (s + 1) as u8, opt.is_some())?;
+            if r.rtype == 41 { opt = Some(r.name_end); options = opts(p, r.name_end + 10, r.end).unwrap(); }
+            off = r.end;
+            recs.push(r);
+        }
+    }
+    if off != p.len() { return None; }
+    Some(Msg { qname, qname_end: qne, qtype: be16(p, qne), qclass: be16(p, qne + 2), recs, starts, opt, options })
+}
+
+/// dotted lowercase text of an expanded wire name ('.' inside a label written \046)
+pub fn to_text(name: &[u8]) -> Vec<u8> {
+    let mut out = vec![];
+    let mut i = 0;
+    while i < name.len() && name[i] != 0 {
+        let l = name[i] as usize;
+        if !out.is_empty() { out.push(b'.'); }
+        for &c in &name[i + 1..i + 1 + l] {
+            if c == b'.' { out.extend_from_slice(b"\\046"); } else { out.push(c.to_ascii_lowercase()); }
+        }
+        i += l + 1;
+    }
+    out
+}
+
+// ---------------------------------------------------------------------------------------------------------------
+// generator
+
+pub struct Gen<'a> { pub r: &'a mut Rng, pub p: Vec<u8>, pub label_starts: Vec<usize>, pub compress: bool }
+
+const ALPHA: &[u8] = b"abcXYZ019-_";
+
+impl<'a> Gen<'a> {
+    pub fn label(&mut self) -> Vec<u8> {
+        let n = match self.r.below(20) { 0 => 63, 1 => 62, 2 => 1, _ => 1 + self.r.below(6) as usize };
+        (0..n).map(|_| *self.r.pick(ALPHA)).collect()
+    }
+    /// writes a name at the current end of self.p; may end in a pointer to an earlier label start
+    pub fn name(&mut self, allow_ptr: bool) {
+        if self.r.chance(1, 12) { self.p.push(0); return; }
+        let nl = 1 + self.r.below(4) as usize;
+        for _ in 0..nl {
+            if allow_ptr && self.compress && !self.label_starts.is_empty() && self.r.chance(1, 3) {
+                let t = *self.r.pick(&self.label_starts);
+                if t < 0x4000 { self.p.push(0xc0 | (t >> 8) as u8); self.p.push(t as u8); return; }
+            }
+            let l = self.label();
+            if self.p.len() < 0x3fff { self.label_starts.push(self.p.len()); }
+            self.p.push(l.len() as u8);
+            self.p.extend_from_slice(&l);
+        }
+        self.p.push(0);
+    }
+    pub fn rr(&mut self, section: usize, force_type: Option<u16>) {
+        let t = force_type.unwrap_or_else(|| *self.r.pick(&[1u16, 1, 28, 2, 5, 12, 15, 6, 39, 16, 99, 33, 257]));
+        if t == 41 { self.p.push(0); } else { self.name(true); }
+        put16(&mut self.p, t);
+        put16(&mut self.p, if t == 41 { 1232 } else { 1 });
+        put32(&mut self.p, self.r.next() as u32);
+        let lenpos = self.p.len();
+        put16(&mut self.p, 0);
+        let d = self.p.len();
+        match t {
+            1 => { let b = self.r.bytes(4); self.p.extend(b); }
+            28 => { let b = self.r.bytes(16); self.p.extend(b); }
+            2 | 5 | 12 => self.name(true),
+            15 => { put16(&mut self.p, self.r.next() as u16); self.name(true); }
+            6 => { self.name(true); self.name(true); let b = self.r.bytes(20); self.p.extend(b); }
+            39 => { let c = self.compress; self.compress = false; let ls = self.label_starts.len(); self.name(false); self.label_starts.truncate(ls); self.compress = c;
+                    if self.r.chance(1, 4) && self.p.len() > d + 2 { let k = d + 1; self.p[k] = *self.r.pick(&[b'.', 0u8, b'\\', 200]); } }
+            41 => { for _ in 0..self.r.below(4) { put16(&mut self.p, self.r.next() as u16); let l = self.r.below(6) as usize; put16(&mut self.p, l as u16); let b = self.r.bytes(l); self.p.extend(b); } }
+            _ => { let l = self.r.below(12) as usize; let b = self.r.bytes(l); self.p.extend(b); }
+        }
+        let l = self.p.len() - d;
+        self.p[lenpos] = (l >> 8) as u8; self.p[lenpos + 1] = l as u8;
+        let _ = section;
+    }
+}
+
+/// a (mostly) well-formed packet.  opt_pos: 0 none, 1 first, 2 middle, 3 last, 4 random
+pub fn gen_valid(r: &mut Rng, compress: bool) -> Vec<u8> {
+    let qr = r.chance(2, 3);
+    let mut g = Gen { r, p: vec![], label_starts: vec![], compress };
+    let tid = g.r.next() as u16;
+    put16(&mut g.p, tid);
+    let mut flags = g.r.next() as u16;
+    if qr { flags |= 0x8000 } else { flags &= 0x7fff }
+    put16(&mut g.p, flags);
+    let an = if qr { g.r.below(4) as usize } else { 0 };
+    let ns = if qr { g.r.below(3) as usize } else { 0 };
+    let mut ar = g.r.below(4) as usize;
+    let with_opt = g.r.chance(1, 2);
+    if with_opt { ar += 1; }
+    put16(&mut g.p, 1); put16(&mut g.p, an as u16); put16(&mut g.p, ns as u16); put16(&mut g.p, ar as u16);
+    g.name(false);
+    let qt = *g.r.pick(&[1u16, 28, 15, 255]);
+    put16(&mut g.p, qt); put16(&mut g.p, 1);
+    for _ in 0..an { g.rr(1, None); }
+    for _ in 0..ns { g.rr(2, None); }
+    let opt_at = if with_opt { g.r.below(ar as u64) as usize } else { usize::MAX };
+    for i in 0..ar { if i == opt_at { g.rr(3, Some(41)); } else { g.rr(3, None); } }
+    g.p
+}
+
+/// damage a packet in a way that targets one clause of the policy
+pub fn damage(r: &mut Rng, p: &mut Vec<u8>) {
+    if p.is_empty() { return; }
+    match r.below(14) {
+        0 => { let i = r.below(p.len() as u64) as usize; p[i] ^= 1 << r.below(8); }
+        1 => { let n = r.below(p.len() as u64 + 1) as usize; p.truncate(n); }
+        2 => { p.push(r.next() as u8); }
+        3 => { if p.len() >= 12 { let i = 4 + 2 * r.below(4) as usize + 1; p[i] = p[i].wrapping_add(if r.chance(1, 2) { 1 } else { 255 }); } }
+        4 => { let i = r.below(p.len() as u64) as usize; p[i] = *r.pick(&[0u8, 63, 64, 0xc0, 0xff, b'.', b'\\', 31, 127, 1]); }
+        5 => { if p.len() > 14 { let i = 12 + r.below((p.len() - 12) as u64) as usize; p[i] = p[i].wrapping_add(1); } }
+        6 => { if p.len() > 14 { let i = 12 + r.below((p.len() - 12) as u64) as usize; p[i] = p[i].wrapping_sub(1); } }
+        7 => { if p.len() >= 4 { p[2] ^= 0x80; } }
+        8 => { // point a pointer somewhere else
+            let idx: Vec<usize> = (12..p.len().saturating_sub(1)).filter(|&i| p[i] & 0xc0 == 0xc0).collect();
+            if !idx.is_empty() { let i = *r.pick(&idx); let t = r.below(p.len() as u64) as usize; p[i] = 0xc0 | (t >> 8) as u8 & 0x3f; p[i + 1] = t as u8; } }
+        9 => { let i = r.below(p.len() as u64) as usize; let b = r.next() as u8; p.insert(i, b); }
+        10 => { let i = r.below(p.len() as u64) as usize; p.remove(i); }
+        11 => { if p.len() >= 6 { p[5] = r.below(3) as u8; } }
+        12 => { let n = r.below(4) as usize; for _ in 0..n { let i = r.below(p.len() as u64) as usize; p[i] = r.next() as u8; } }
+        _ => { // duplicate the tail record-ish bytes
+            if p.len() > 24 { let k = p.len() - 11; let tail = p[k..].to_vec(); p.extend(tail); } }
+    }
+}
+
+pub fn gen_packet(r: &mut Rng) -> Vec<u8> {
+    match r.below(10) {
+        0 => { let n = r.below(40) as usize; r.bytes(n) }
+        1..=4 => { let c = r.chance(3, 4); gen_valid(r, c) }
+        _ => { let c = r.chance(3, 4); let mut p = gen_valid(r, c); let k = 1 + r.below(2); for _ in 0..k { damage(r, &mut p); } p }
+    }
+}
+
+/// hand-made boundary family: long pointer chains (15/16/17), maximal names (254/255/256), labels 63/64
+pub fn gen_boundary(r: &mut Rng) -> Vec<u8> {
+    let mut p = vec![0u8, 1, 0x80, 0, 0, 1, 0, 1, 0, 0, 0, 0];
+    match r.below(3) {
+        0 => {
+            // question name = chain of k pointers ending in a label
+            let k = 14 + r.below(5) as usize;
+            // layout: label at 12.., then pointers each pointing to the previous
+            let mut q = vec![1u8, b'a', 0];
+            let mut prev = 12usize;
+            // place chain elements in the answer record's rdata is complex: instead put the chain in front of the question
+            // header(12) | a\0 | ptr->12 | ptr->15 | ...   and the question name is the last pointer
+            let mut body = q.clone();
+            for i in 0..k { let t = if i == 0 { 12 } else { 15 + 2 * (i - 1) }; body.push(0xc0); body.push(t as u8); }
+            // question starts at 12: it is "a\0" (valid); record with a name being the deep chain
+            p.extend_from_slice(&body[..3]);
+            put16(&mut p, 1); put16(&mut p, 1);
+            // answer: owner name = pointer chain written before? emulate: owner = labels "b" + ptr chain to 12 via nested answers
+            let mut off_names = vec![12usize];
+            for i in 0..k {
+                // each answer's owner: one label then pointer to the previous owner
+                let here = p.len();
+                p.push(1); p.push(b'b');
+                let t = *off_names.last().unwrap();
+                p.push(0xc0 | (t >> 8) as u8); p.push(t as u8);
+                off_names.push(here);
+                put16(&mut p, 1); put16(&mut p, 1); put32(&mut p, 1); put16(&mut p, 4); p.extend_from_slice(&[1, 2, 3, 4]);
+                let _ = i;
+            }
+            p[7] = k as u8;
+        }
+        1 => {
+            // name of total wire length n
+            let n = 253 + r.below(4) as usize;
+            let mut name = vec![];
+            while name.len() + 64 < n - 1 { name.push(63); name.extend(std::iter::repeat(b'x').take(63)); }
+            let rest = n - 1 - name.len();
+            if rest > 1 { name.push((rest - 1) as u8); name.extend(std::iter::repeat(b'y').take(rest - 1)); }
+            name.push(0);
+            p.extend(name);
+            put16(&mut p, 1); put16(&mut p, 1);
+            p[7] = 0;
+        }
+        _ => {
+            let l = 62 + r.below(3) as usize;
+            p.push(l as u8); p.extend(std::iter::repeat(b'z').take(l)); p.push(0);
+            put16(&mut p, 1); put16(&mut p, 1);
+            p[7] = 0;
+        }
+    }
+    p
+}
